@@ -356,6 +356,28 @@ def c06(s):
 def c08(s):
     out = []
     auto_ok = not (s.cfg.sso and not s.cfg.fwd)
+    # "a session that keeps being used always gets a refresh opportunity before its token expires" - and, with inactivity
+    # enabled, before the inactivity deadline (a session in continuous use must not time out): for every stored record with a
+    # refresh token and a positive token lifetime there is an interval (a, b], b <= min(expiry, inactivity deadline), in which
+    # the documented schedule (5 min before expiry or half-way to the inactivity deadline, cooldown over) asks for a refresh.
+    flagged = False
+    for j, (es, _) in enumerate(s.snaps):
+        if flagged:
+            break
+        for k, e in es.items():
+            if e.dek == -9 or e.rt == 0 or e.expire - e.refreshed <= 0:
+                continue
+            cand = e.expire - LEEWAY
+            if e.timeout != -1:
+                cand = min(cand, e.refreshed + quot(e.timeout - e.refreshed, 2))
+            a = max(cand, cooldown_end(e))
+            b = e.expire if e.timeout == -1 else min(e.expire, e.timeout)
+            if not a < b:
+                out.append(("c08-no-refresh-opportunity",
+                            "stored session has no refresh opportunity before its token expiry / inactivity deadline: the schedule and cooldown derived from the stored record first allow a refresh at %d ns, the deadline is %d ns" % (a, b),
+                            {"event_index": j, "key": k}))
+                flagged = True
+                break
     for t in s.threads.values():
         grants = [(i, op, now) for (i, op, _, now) in t.ops if op[0] == 6]
         if grants and t.kind not in ("p", "f", "r"):
